@@ -137,7 +137,6 @@ func Validate(b []byte) string {
 	last := -1 // last code seen (as sort key)
 	seen := map[uint8]bool{}
 	var prevCode int = -1
-	var prevLen int
 	key := func(c uint8) int {
 		if c == 82 {
 			return 1000 // relay agent information goes last
@@ -164,14 +163,8 @@ func Validate(b []byte) string {
 			return fmt.Sprintf("option %d overruns the buffer", code)
 		}
 		if int(code) == prevCode {
-			// a further instance of the same code: legal only as RFC 3396
-			// continuation of a full 255-byte instance
-			if prevLen != 255 {
-				return fmt.Sprintf("option %d repeated after a %d-byte instance (not an RFC 3396 split)", code, prevLen)
-			}
-			if l == 0 {
-				return fmt.Sprintf("option %d has an empty continuation instance", code)
-			}
+			// a further consecutive instance of the same code: an RFC 3396 split
+			// (the RFC does not prescribe where a long value is cut)
 		} else {
 			if seen[code] {
 				return fmt.Sprintf("option %d appears in two separate runs", code)
@@ -182,7 +175,7 @@ func Validate(b []byte) string {
 			seen[code] = true
 			last = key(code)
 		}
-		prevCode, prevLen = int(code), l
+		prevCode = int(code)
 		i += 2 + l
 	}
 	for ; i < len(b); i++ {
